@@ -527,12 +527,11 @@ def check_C09(ctx):
 
 @prop("C10", "as C09; each script use carries a redeemer whose datum is a unique integer; TLC locates every redeemer in the emitted "
              "witness set and checks (purpose, index) against the ledger's position of the attached item: inputs sorted by (txid, index), "
-             "policy ids sorted, certificate sequence, withdrawals in reward-account order; pointers pairwise distinct; as many redeemers "
+             "policy ids sorted, certificate sequence, withdrawals in reward-account order, voters in the ledger's voter order, proposal sequence; pointers pairwise distinct; as many redeemers "
              "as script uses; outpoints are spread over 41 transaction ids so that sorted order differs from insertion order; distinct = "
              "sets of (purpose, expected index)")
 def check_C10(ctx):
-    ctx.assumptions += _BUILDER_ASSUME + ["vote redeemers are checked for presence, purpose and distinctness only (DESIGN section 3 C10)",
-                                          "reward-account order is the ledger's derived Ord (network, script before key credential, hash); a pointer that matches raw byte order instead is noted as ambiguous-order, not failed"]
+    ctx.assumptions += _BUILDER_ASSUME + ["reward-account and voter orders are the ledger's derived Ord (network / voter kind, script-hash before key-hash credential, hash bytes), transcribed in LedgerRules.tla"]
     builder_family(ctx, n_random=0, mc_sample=0, n_plutus=12000 if ctx.thorough else 1500, corrupt=_corrupt_redeemer_index)
 
 
